@@ -134,7 +134,7 @@ def impl_eval(c):
   k = c[0]
   if k == 'getslice':
     x = bu.mk(c[1], c[2]); sl = slice(as_bound(c[3], c[6]), as_bound(c[4], c[6]), c[5])
-    return bu.run(lambda: x[sl])
+    return bu.run_read_fresh(lambda: x[sl], x)
   if k == 'setslice':
     x = bu.mk(c[1], c[2]); sl = slice(as_bound(c[3], c[6]), as_bound(c[4], c[6]), c[5]); v = bu.opnd_real(c[7])
     def f():
@@ -142,7 +142,7 @@ def impl_eval(c):
       return x
     return bu.run(f)
   if k == 'getbit':
-    x = bu.mk(c[1], c[2]); return bu.run(lambda: x[c[3]])
+    x = bu.mk(c[1], c[2]); return bu.run_read_fresh(lambda: x[c[3]], x)
   if k == 'setbit':
     x = bu.mk(c[1], c[2]); v = bu.opnd_real(c[4])
     def f():
@@ -151,13 +151,13 @@ def impl_eval(c):
     return bu.run(f)
   if k == 'concat':
     parts = [bu.mk(m, v) for m, v in c[1]]
-    return bu.run(lambda: concat(*parts))
+    return bu.run_read_fresh(lambda: concat(*parts), parts[0]) if parts else bu.run(lambda: concat(*parts))
   if k in ('trunc', 'zext', 'sext'):
     x = bu.mk(c[1], c[2]); f = {'trunc': trunc, 'zext': zext, 'sext': sext}[k]
-    return bu.run(lambda: f(x, c[3]))
+    return bu.run_read_fresh(lambda: f(x, c[3]), x)
   if k in ('truncT', 'zextT', 'sextT'):
     x = bu.mk(c[1], c[2]); f = {'truncT': trunc, 'zextT': zext, 'sextT': sext}[k]
-    return bu.run(lambda: f(x, mk_bits(c[3])))
+    return bu.run_read_fresh(lambda: f(x, mk_bits(c[3])), x)
   if k.startswith('reduce'):
     x = bu.mk(c[1], c[2]); f = {'reduce_and': reduce_and, 'reduce_or': reduce_or, 'reduce_xor': reduce_xor}[k]
     return bu.run(lambda: f(x))
